@@ -4171,7 +4171,10 @@ class NetCDFRead(IORead):
                     if not self._has_identity(c, identity):
                         continue
 
-                    tp_dims[identity] = tuple([a.index(i) for i in axes])
+                    # The position, in this coordinate's tie point
+                    # array, of each dimension of the dependent tie
+                    # point array
+                    tp_dims[identity] = tuple([axes.index(i) for i in a])
 
                     c_tp[identity] = self.implementation.get_tie_points(c)
                     if bounds is None:
